@@ -371,18 +371,20 @@ def check_drain(check, an: Analysis, run_events: Callee, rule: str):
             deque_name = ast.unparse(stmt.targets[0].elts[1])
             n_seg += 1
             published = any(e.kind == 'store' and e['path'] == 'self._pending' and
-                            rules.value_text(path, start + seg.index(e), e['value'])
+                            rules.value_text(path, start + seg.index(e), e['value'],
+                                             keep=(deque_name,))
                             == deque_name for e in seg)
             publish_ok &= published
             takes = [e for e in seg if e.kind == 'call' and isinstance(e.node, ast.Call)
                      and isinstance(e.node.func, ast.Attribute)
                      and e.node.func.attr in ('popleft', 'pop', 'popright')
-                     and rules.value_text(path, start + seg.index(e), e.node.func.value)
+                     and rules.value_text(path, start + seg.index(e), e.node.func.value,
+                                          keep=(deque_name,))
                      == deque_name]
             left_ok &= all(e.node.func.attr == 'popleft' for e in takes)
             # the next thing after the segment is only reached after testing it empty
             tests = [e for e in seg if e.kind == 'test' and rules.value_text(
-                path, start + seg.index(e), e.node) == deque_name]
+                path, start + seg.index(e), e.node, keep=(deque_name,)) == deque_name]
             drained = bool(tests) and tests[-1]['value'] is False
             if not drained and (k + 1 < len(pops) or path.normal):
                 verdict = False
